@@ -40,6 +40,10 @@ EXPLANATION = (
     "NOT decided: 'runs to completion on every finite input' beyond these emptiness and validation facts (numerical failures "
     "inside numpy)."
 )
+# obligations added during the build phase (seeding rounds, twins, mutation analysis)
+ADDED_IN_BUILD = ' Also: NONEMPTY covers the candidate sets of the dynamic programmes (C02.b / C03.c BELLMAN candidates re-run: the newest admissible start is always among them, so argmin / argmax never see an empty set for max_segment_length == min_segment_length).'
+EXPLANATION = EXPLANATION + ADDED_IN_BUILD
+
 ASSUMPTIONS = [
     "Python's ast module and evaluation-order/argument-binding semantics as implemented in skverif/symex.py",
     "library model table skverif/models.py (pd.Interval membership, DataFrame.isna().any())",
